@@ -18,8 +18,8 @@ import (
 	"github.com/anishathalye/porcupine"
 
 	"verif/harness/internal/fw"
-	lab "verif/harness/internal/mptlab"
 	"verif/harness/internal/model"
+	lab "verif/harness/internal/mptlab"
 )
 
 // C16 — concurrent use of one state trie is linearizable (w.r.t. the map semantics and the canonical root) and race-free.
@@ -234,8 +234,26 @@ func c16history(c *fw.Ctx) {
 			}
 		}
 	}
+	// half of the histories start from a non-empty trie whose node cache has been committed to the block cache below
+	// (entries then live only in the lower cache layer, the way a long-lived trie is used)
+	preload := map[string]string{}
+	if r.Intn(2) == 0 {
+		for i := 0; i < 1+r.Intn(4); i++ {
+			k := paths[r.Intn(len(paths))]
+			ctr++
+			v := fmt.Sprintf("v%d", ctr)
+			if _, err := m.Insert(util.Path(k), &lab.Val{B: []byte(v)}); err == nil {
+				preload[k] = v
+			}
+		}
+		m.Cache().Commit()
+		c.Count("histories_with_committed_node_cache", 1)
+	}
 	var mu sync.Mutex
 	var ops []porcupine.Operation
+	for k, v := range preload { // the preload enters the history as completed sequential inserts
+		ops = append(ops, porcupine.Operation{ClientId: G + 1, Input: linIn{"ins", k, v}, Call: int64(-1000 + len(ops)*2), Output: linOut{}, Return: int64(-999 + len(ops)*2)})
+	}
 	start := time.Now()
 	gate := make(chan struct{})
 	var wg sync.WaitGroup
@@ -413,6 +431,13 @@ func c16readers(c *fw.Ctx) {
 	}
 	wantMissing, _ := lab.NewMPT(part, c16version, root).HasMissingNodes(context.Background())
 	shared := lab.NewMPT(&jitterDB{NodeDB: part}, c16version, root)
+	if r.Intn(2) == 0 { // warm the node cache sequentially and commit it to the block cache below
+		for _, k := range keys {
+			_, _ = shared.GetNodeValueRaw(util.Path(k))
+		}
+		shared.Cache().Commit()
+		c.Count("reader_runs_with_committed_node_cache", 1)
+	}
 	var wg sync.WaitGroup
 	var bad atomic.Value
 	G := 4 + r.Intn(5)
@@ -461,19 +486,84 @@ func c16readers(c *fw.Ctx) {
 	}
 }
 
-func c16layout(tier string) (hist, readers int) {
-	if tier == "thorough" {
-		return 150000, 6000
+// c16expiredSave: SaveChanges with a context that is already expired returns at once while its saver goroutine keeps
+// running; what it writes must be the change set as of the call (a snapshot taken before SaveChanges returns), never
+// nodes of updates that were invoked after it returned.
+func c16expiredSave(c *fw.Ctx) {
+	r := c.Rng
+	procs := []int{1, 1, 2, 16}[r.Intn(4)]
+	old := runtime.GOMAXPROCS(procs)
+	defer runtime.GOMAXPROCS(old)
+	g := lab.NewPathGen(r)
+	m := lab.NewMPT(util.NewMemoryNodeDB(), c16version, nil)
+	mdl := map[string][]byte{}
+	for i := 0; i < 3+r.Intn(12); i++ {
+		p := g.Pick(lab.SortedKeys(mdl))
+		v := lab.GenValue(r, i)
+		if _, err := m.Insert(util.Path(p), &lab.Val{B: v}); err == nil {
+			mdl[p] = v
+		}
 	}
-	return 4800, 200
+	rootAtCall := append([]byte(nil), m.GetRoot()...)
+	_, changes, _, _ := m.GetChanges()
+	atCall := map[string]bool{}
+	for _, ch := range changes {
+		atCall[string(ch.New.GetHashBytes())] = true
+	}
+	side := util.NewMemoryNodeDB()
+	cctx, cancel := context.WithCancel(context.Background())
+	cancel()
+	_ = m.SaveChanges(cctx, side, false)
+	// updates invoked after SaveChanges returned
+	for i := 0; i < 5+r.Intn(40); i++ {
+		p := g.Pick(lab.SortedKeys(mdl))
+		v := lab.GenValue(r, 100+i)
+		if _, err := m.Insert(util.Path(p), &lab.Val{B: v}); err == nil {
+			mdl[p] = v
+		}
+	}
+	// wait for the saver: the side store stops growing (bounded wait; the oracle below does not depend on the wait)
+	last := int64(-1)
+	for i := 0; i < 200; i++ {
+		n := side.Size(context.Background())
+		if n == last && n > 0 {
+			break
+		}
+		last = n
+		time.Sleep(200 * time.Microsecond)
+	}
+	foreign := 0
+	var example []byte
+	_ = side.Iterate(context.Background(), func(ctx context.Context, key util.Key, node util.Node) error {
+		if !atCall[string(key)] {
+			foreign++
+			example = append([]byte(nil), key...)
+		}
+		return nil
+	})
+	if foreign > 0 {
+		c.Violate("", "a SaveChanges call whose context had expired wrote %d node(s) that were not pending when it was called (e.g. %x): it saved updates invoked after it had returned (root at call %x, GOMAXPROCS=%d)", foreign, example, rootAtCall, procs)
+	}
+	c.Count("expired_save_runs", 1)
+	c.Count("expired_save_nodes_written", side.Size(context.Background()))
+}
+
+func c16layout(tier string) (hist, readers, expired int) {
+	if tier == "thorough" {
+		return 150000, 6000, 30000
+	}
+	return 4800, 200, 1600
 }
 
 func runC16(c *fw.Ctx) {
-	hist, _ := c16layout(c.Tier)
-	if c.Idx < hist {
+	hist, rd, _ := c16layout(c.Tier)
+	switch {
+	case c.Idx < hist:
 		c16history(c)
-	} else {
+	case c.Idx < hist+rd:
 		c16readers(c)
+	default:
+		c16expiredSave(c)
 	}
 }
 
@@ -484,11 +574,11 @@ func init() {
 		Race:  true,
 		Rule: "histories: 3..6 goroutines x 4..8 (quick) / 4..11 (thorough) operations (insert with globally unique value, delete, lookup, full Iterate, GetRoot, GetChanges as a snapshot (root plus the content reachable through the returned change set, which must belong to one state), SaveChanges with a plain, an already cancelled and a 20 µs context + GetChangeCount) on 3..5 structurally colliding paths of one trie over a store wrapper that injects Gosched/µs sleeps at GetNode/PutNode/DeleteNode, " +
 			"GOMAXPROCS in {1,2,4,16}; call/return stamped at the client boundary from one monotonic clock; a final sequential Iterate+GetRoot is appended. Each history is checked offline with porcupine against a sequential map model in which Iterate must equal the whole map and every root read must equal the independent canonical root (C02 reference) of the state at its linearization point. " +
-			"reader runs: 4..8 goroutines doing lookups, Iterate, HasMissingNodes, GetMissingNodeKeys on a trie whose store lacks ~20% of the nodes; results must equal the sequential results. Everything runs in the -race binary; each distinct race report (pair of outermost 0chain/common frames) is a violation. " +
+			"half of the histories start from a preloaded trie whose node cache was committed to the lower cache layer. expired-save runs: SaveChanges with an already cancelled context followed by 5..45 inserts; the side store may only receive nodes that were pending at the call. reader runs (half with a warmed and committed node cache): 4..8 goroutines doing lookups, Iterate, HasMissingNodes, GetMissingNodeKeys on a trie whose store lacks ~20% of the nodes; results must equal the sequential results. Everything runs in the -race binary; each distinct race report (pair of outermost 0chain/common frames) is a violation. " +
 			"non-trivial = history with at least one update overlapping another goroutine's operation; distinct by (scripts, overlap count)",
-		Cases: func(tier string) int { h, r := c16layout(tier); return h + r },
+		Cases: func(tier string) int { h, r, e := c16layout(tier); return h + r + e },
 		Run:   runC16,
-		Floors: map[string]int64{"histories": 4500, "linearizable": 4500, "operations": 80000, "overlapping_pairs": 20000, "histories_with_overlapping_updates": 2000, "reader_runs": 200, "reader_runs_with_missing_nodes": 150, "final_saves_checked": 4500,
+		Floors: map[string]int64{"histories": 4500, "linearizable": 4500, "operations": 80000, "overlapping_pairs": 20000, "histories_with_overlapping_updates": 2000, "reader_runs": 200, "reader_runs_with_missing_nodes": 150, "final_saves_checked": 4500, "histories_with_committed_node_cache": 1500, "reader_runs_with_committed_node_cache": 50, "expired_save_runs": 1500,
 			"gomaxprocs:1": 100, "gomaxprocs:16": 100},
 		Assumptions: []string{
 			"histories are small (<= 6 x 11 operations) and numerous; a porcupine timeout (30 s) would be inconclusive, never a violation",
